@@ -1117,7 +1117,7 @@ Theorem conditional_orientation : forall (Y : Type) (a b : nat) (c : bool) (x y 
   (if a <=? b then x else y) = (if b <? a then y else x) /\
   (if a <? b then x else y) = (if b <=? a then y else x) /\
   (if negb c then x else y) = (if c then y else x).
-Proof. intros Y a b c x y. exact (conj (SrcEqBase.if_leb_flip a b x y) (conj (SrcEqBase.if_ltb_flip a b x y) (SrcEqBase.if_negb_flip c x y))). Qed.
+Proof. intros Y a b c x y. exact (Logic.conj (SrcEqBase.if_leb_flip a b x y) (Logic.conj (SrcEqBase.if_ltb_flip a b x y) (SrcEqBase.if_negb_flip c x y))). Qed.
 Check conditional_orientation : forall (Y : Type) (a b : nat) (c : bool) (x y : Y),
   (if a <=? b then x else y) = (if b <? a then y else x) /\
   (if a <? b then x else y) = (if b <=? a then y else x) /\
@@ -1127,7 +1127,7 @@ Print Assumptions conditional_orientation.
 Theorem negation_normal_form : forall (a b : nat) (x y : bool),
   negb (a <? b) = (b <=? a) /\ negb (a <=? b) = (b <? a) /\ negb (negb (a =? b)) = (a =? b) /\
   negb (x && y)%bool = (negb x || negb y)%bool /\ negb (x || y)%bool = (negb x && negb y)%bool.
-Proof. intros a b x y. exact (conj (SrcEqCanon.nnf_ltb a b) (conj (SrcEqCanon.nnf_leb a b) (conj (SrcEqCanon.nnf_eqb a b) (conj (SrcEqCanon.nnf_andb x y) (SrcEqCanon.nnf_orb x y))))). Qed.
+Proof. intros a b x y. exact (Logic.conj (SrcEqCanon.nnf_ltb a b) (Logic.conj (SrcEqCanon.nnf_leb a b) (Logic.conj (SrcEqCanon.nnf_eqb a b) (Logic.conj (SrcEqCanon.nnf_andb x y) (SrcEqCanon.nnf_orb x y))))). Qed.
 Check negation_normal_form : forall (a b : nat) (x y : bool),
   negb (a <? b) = (b <=? a) /\ negb (a <=? b) = (b <? a) /\ negb (negb (a =? b)) = (a =? b) /\
   negb (x && y)%bool = (negb x || negb y)%bool /\ negb (x || y)%bool = (negb x && negb y)%bool.
@@ -1136,7 +1136,7 @@ Print Assumptions negation_normal_form.
 Theorem element_writes_keep_shape : forall (A : Arith) (l l' : list A) (m m' : Matrix.matrix A) (i j : nat) (x : A),
   (upd l i x = Ok l' -> length l' = length l) /\
   (Matrix.mset m i j x = Ok m' -> Matrix.rows m' = Matrix.rows m /\ Matrix.cols m' = Matrix.cols m /\ length (Matrix.buf m') = length (Matrix.buf m)).
-Proof. intros A l l' m m' i j x. exact (conj (SrcEqCanon.upd_keeps_length l l' i x) (SrcEqCanon.mset_keeps_shape m m' i j x)). Qed.
+Proof. intros A l l' m m' i j x. exact (Logic.conj (SrcEqCanon.upd_keeps_length l l' i x) (SrcEqCanon.mset_keeps_shape m m' i j x)). Qed.
 Check element_writes_keep_shape : forall (A : Arith) (l l' : list A) (m m' : Matrix.matrix A) (i j : nat) (x : A),
   (upd l i x = Ok l' -> length l' = length l) /\
   (Matrix.mset m i j x = Ok m' -> Matrix.rows m' = Matrix.rows m /\ Matrix.cols m' = Matrix.cols m /\ length (Matrix.buf m') = length (Matrix.buf m)).
